@@ -223,7 +223,16 @@ BOOLS = ["b", "ULT(x, 3)", "x == 5", "Or(x == 1, x == 2)", "SLT(y, 0)", "ULE(x, 
 #  solution{e,v,extra}  is_true/is_false{e,extra}  simplify  downsize  branch (creates solver index len(solvers))
 
 def gen_history(rng, length, calpha=CONSTRAINTS, ealpha=EXPRS, balpha=BOOLS, uni=None, max_solvers=4,
-                weights=None):
+                weights=None, threads=0):
+    if threads:
+        # thread hand-off: the same history, each call tagged with the thread that makes it (runs of calls per thread)
+        hist, t = gen_history(rng, length, calpha, ealpha, balpha, uni, max_solvers, weights), 0
+        for d in hist:
+            if rng.random() < 0.3:
+                t = rng.randrange(threads + 1)
+            if t:
+                d["t"] = t
+        return hist
     hist, nsolv = [], 1
     w = weights or {"add": 22, "satisfiable": 8, "eval": 14, "batch_eval": 6, "min": 11, "max": 11, "solution": 8,
                     "is_true": 2, "is_false": 2, "simplify": 4, "downsize": 2, "branch": 5}
@@ -236,20 +245,45 @@ def gen_history(rng, length, calpha=CONSTRAINTS, ealpha=EXPRS, balpha=BOOLS, uni
         return [rng.choice(calpha) for _ in range(1 if r < 0.9 else 2)]
 
     bv_exprs = ealpha
+    # cache-directed follow-ups: what was queried on a solver comes back later (the caches are keyed by it) —
+    # batch_eval over several expressions each enumerated before, with n beyond what exists; equalities whose
+    # symbolic side is a compound expression queried before (ReplacementFrontend keys its cache by such sides)
+    queried = {0: []}
     for _ in range(length):
         op = rng.choices(names, ws)[0]
         s = rng.randrange(nsolv)
         d = {"s": s, "op": op}
+        q = queried[s]
+        if "batch_eval" in w and "eval" in w and rng.random() < 0.04:
+            # burst: enumerate two or three expressions one by one, then jointly (no add in between)
+            es = rng.sample(bv_exprs, rng.choice([2, 2, 3]))
+            for e in es:
+                hist.append({"s": s, "op": "eval", "e": e, "n": rng.choice([20, 20, 300]), "extra": []})
+                if e not in q:
+                    q.append(e)
+            hist.append({"s": s, "op": "batch_eval", "es": es, "n": 300, "extra": []})
+            continue
         if op == "add":
-            d["cs"] = [rng.choice(calpha) for _ in range(1 if rng.random() < 0.8 else 2)]
+            if q and rng.random() < 0.15:
+                d["cs"] = ["(%s) == %d" % (rng.choice(q), rng.randrange(8))]
+            else:
+                d["cs"] = [rng.choice(calpha) for _ in range(1 if rng.random() < 0.8 else 2)]
         elif op == "satisfiable":
             d["extra"] = extra()
         elif op == "eval":
             d.update(e=rng.choice(bv_exprs + ["b"]), n=rng.choice([1, 2, 5, 5, 20]), extra=extra())
+            if d["e"] != "b" and d["e"] not in q:
+                q.append(d["e"])
         elif op == "batch_eval":
-            d.update(es=[rng.choice(bv_exprs) for _ in range(rng.choice([1, 2, 2, 3]))], n=rng.choice([1, 2, 5, 20]), extra=extra())
+            if len(q) >= 2 and rng.random() < 0.5:
+                d.update(es=rng.sample(q, rng.choice([2, 2, 3]) if len(q) >= 3 else 2), n=rng.choice([20, 300]),
+                         extra=[] if rng.random() < 0.8 else extra())
+            else:
+                d.update(es=[rng.choice(bv_exprs) for _ in range(rng.choice([1, 2, 2, 3]))], n=rng.choice([1, 2, 5, 20]), extra=extra())
         elif op in ("min", "max"):
             d.update(e=rng.choice(bv_exprs), signed=rng.random() < 0.5, extra=extra())
+            if d["e"] not in q:
+                q.append(d["e"])
         elif op == "solution":
             d.update(e=rng.choice(bv_exprs), v=rng.randrange(16), extra=extra())
         elif op in ("is_true", "is_false"):
@@ -261,8 +295,74 @@ def gen_history(rng, length, calpha=CONSTRAINTS, ealpha=EXPRS, balpha=BOOLS, uni
         elif op == "branch":
             if nsolv >= max_solvers:
                 continue
+            queried[nsolv] = list(q)
             nsolv += 1
         hist.append(d)
+    return hist
+
+
+_VARS_OF = {}
+
+
+def _vars_of(c):
+    """variable names of an alphabet constraint / expression (syntactic: the names x, y, z, b as words)"""
+    if c not in _VARS_OF:
+        import re
+        _VARS_OF[c] = frozenset(re.findall(r"\b([xyzb])\b", c))
+    return _VARS_OF[c]
+
+
+def gen_combine_history(rng, length=0, calpha=None, ealpha=None):
+    """combine of three or four solvers that each have their own constraints and query history (so the caching
+    classes carry models): the solvers start as branches of an empty one; often the first is variable-disjoint from
+    the others while two of the others constrain the same variable"""
+    calpha = [c for c in (calpha or CONSTRAINTS) if _vars_of(c)]
+    ealpha = ealpha or EXPRS
+    k = rng.choice([3, 3, 4])
+    hist = [{"s": 0, "op": "branch"} for _ in range(k - 1)]
+    focus = [rng.choice(calpha) for _ in range(k)]
+    if rng.random() < 0.6:
+        # solver 0 disjoint from the rest, solvers 1 and 2 overlapping
+        for _ in range(40):
+            c0, c1 = rng.choice(calpha), rng.choice(calpha)
+            c2s = [c for c in calpha if _vars_of(c) & _vars_of(c1) and not _vars_of(c) & _vars_of(c0)]
+            if not _vars_of(c0) & _vars_of(c1) and c2s:
+                focus[0], focus[1], focus[2] = c0, c1, rng.choice(c2s)
+                for j in range(3, k):
+                    rest = [c for c in calpha if not _vars_of(c) & _vars_of(c0)]
+                    focus[j] = rng.choice(rest)
+                break
+    for i in range(k):
+        cs = [focus[i]]
+        sub = [c for c in calpha if _vars_of(c) <= _vars_of(focus[i])]
+        if rng.random() < 0.4:
+            cs.append(rng.choice(sub))
+        hist.append({"s": i, "op": "add", "cs": cs})
+    order = list(range(k))
+    rng.shuffle(order)
+    for i in order:
+        if rng.random() < 0.85:
+            es = [e for e in ealpha if _vars_of(e) and _vars_of(e) <= _vars_of(focus[i])] or ["x"]
+            r = rng.random()
+            if r < 0.5:
+                hist.append({"s": i, "op": "eval", "e": rng.choice(es), "n": rng.choice([1, 2, 20]), "extra": []})
+            elif r < 0.8:
+                hist.append({"s": i, "op": "satisfiable", "extra": []})
+            else:
+                hist.append({"s": i, "op": rng.choice(["min", "max"]), "e": rng.choice(es), "signed": rng.random() < 0.5, "extra": []})
+    me = 0 if rng.random() < 0.7 else rng.randrange(k)
+    others = [j for j in range(k) if j != me]
+    rng.shuffle(others)
+    hist.append({"s": me, "op": "combine", "others": others})
+    hist.append({"s": k, "op": "satisfiable", "extra": []})
+    for _ in range(rng.choice([1, 2, 3])):
+        r = rng.random()
+        if r < 0.5:
+            hist.append({"s": k, "op": "eval", "e": rng.choice(ealpha), "n": 20, "extra": []})
+        elif r < 0.75:
+            hist.append({"s": k, "op": "batch_eval", "es": rng.sample(["x", "y", "z"], 2), "n": 300, "extra": []})
+        else:
+            hist.append({"s": k, "op": rng.choice(["min", "max"]), "e": rng.choice(ealpha), "signed": rng.random() < 0.5, "extra": []})
     return hist
 
 
@@ -720,6 +820,40 @@ def judge_fault(d, outcome, fired):
     return ("answer-after-giveup", "the backend gave up during %s but the call returned %r" % (d["op"], outcome[1]))
 
 
+class _Worker:
+    """a second thread that runs closures one at a time; call() waits for the result (strict hand-off, no race)"""
+    def __init__(self):
+        import queue, threading
+        self._q = queue.Queue()
+        self._t = threading.Thread(target=self._loop, daemon=True)
+        self._t.start()
+
+    def _loop(self):
+        while True:
+            fn, box, done = self._q.get()
+            if fn is None:
+                return
+            try:
+                box.append((True, fn()))
+            except BaseException as e:  # noqa: BLE001
+                box.append((False, e))
+            done.set()
+
+    def call(self, fn):
+        import threading
+        box, done = [], threading.Event()
+        self._q.put((fn, box, done))
+        done.wait()
+        ok, val = box[0]
+        if not ok:
+            raise val
+        return val
+
+    def stop(self):
+        self._q.put((None, None, None))
+        self._t.join(5)
+
+
 def run_history(uni, cls, cfg, hist, on_step=None):
     """Run on the real code with the per-answer oracle.  Returns (failures, outcomes);
     failures = [(index, kind, explanation)].  History entries that reference a missing solver are skipped."""
@@ -728,6 +862,7 @@ def run_history(uni, cls, cfg, hist, on_step=None):
     saved = bz.reuse_z3_solver
     bz.reuse_z3_solver = bool(cfg.get("reuse", False))
     inj = None
+    _pools = []
     try:
         if hasattr(bz._tls, "solver"):
             bz._tls.solver = None
@@ -737,6 +872,18 @@ def run_history(uni, cls, cfg, hist, on_step=None):
         solvers = [SOLVER_CLASSES[cls](**kw)]
         ref = Ref(uni)
         fails, outs = [], []
+        pool = {}
+
+        def run_op(d):
+            # ops tagged "t": k run in worker thread k, strictly after everything before them (claripy frontends keep
+            # their Z3 solver in thread-local storage, so a solver handed to another thread starts without one)
+            t = d.get("t")
+            if not t:
+                return apply_op(uni, solvers, d)
+            if t not in pool:
+                pool[t] = _Worker()
+            return pool[t].call(lambda: apply_op(uni, solvers, d))
+        _pools.append(pool)
         if any(d.get("fault") is not None for d in hist):
             inj = FaultInjector()
             inj.install()
@@ -764,7 +911,7 @@ def run_history(uni, cls, cfg, hist, on_step=None):
                     continue
             if d["op"] in ("split", "combine", "merge"):
                 pre = {"ref": [list(l) for l in ref.lists], "cons": [list(sv.constraints) for sv in solvers]}
-                out = apply_op(uni, solvers, d)
+                out = run_op(d)
                 outs.append(out if out[0] != "ok" else ("ok", "<%s>" % d["op"]))
                 j = judge_structure(uni, ref, solvers, d, out, pre)
                 if j:
@@ -772,7 +919,7 @@ def run_history(uni, cls, cfg, hist, on_step=None):
                 if on_step:
                     on_step(k, d, out, solvers, ref)
                 continue
-            out = apply_op(uni, solvers, d)
+            out = run_op(d)
             if inj and d.get("fault") is not None:
                 jf = judge_fault(d, out, inj.fired)
                 if jf != "not-fired":
@@ -801,6 +948,9 @@ def run_history(uni, cls, cfg, hist, on_step=None):
                 on_step(k, d, out, solvers, ref)
         return fails, outs
     finally:
+        for pool in _pools:
+            for wk in pool.values():
+                wk.stop()
         if inj:
             inj.remove()
         bz.reuse_z3_solver = saved
